@@ -161,7 +161,11 @@ func skeleton(n ast.Node, call func(string) bool, watch func(string) bool) []str
 				expr(x.X)
 			case *ast.DeclStmt:
 				expr(x)
-			case *ast.IncDecStmt, *ast.BranchStmt, *ast.EmptyStmt:
+			case *ast.BranchStmt:
+				if watch != nil && watch(x.Tok.String()) {
+					res = append(res, x.Tok.String())
+				}
+			case *ast.IncDecStmt, *ast.EmptyStmt:
 			default:
 				expr(s)
 			}
